@@ -227,7 +227,8 @@ def run_mpi(ctx, e, P, spec, poison=0, suffix='', seed=1):
         require(o['ci'] == outs[0]['ci'], 'ranks_disagree',
                 lambda: 'centre list differs between rank 0 and %d: %s vs %s' % (r, outs[0]['ci'], o['ci']))
         require(len(o['centers']) == len(outs[0]['centers']) and
-                all(C.same(x, y) for x, y in zip(o['centers'], outs[0]['centers'])), 'ranks_disagree',
+                all((C.same(x, y) if P.metric_name != 'rmsd' else M.frame_equal('rmsd', x, y))      # RMSD: mdtraj centres frames in place
+                    for x, y in zip(o['centers'], outs[0]['centers'])), 'ranks_disagree',
                 lambda: 'centre coordinates differ between rank 0 and %d' % r)
         d[P.l2g[r]] = o['d']
         a[P.l2g[r]] = o['a']
